@@ -3,6 +3,9 @@ use std::fs::File;
 use std::io::{BufWriter, Write};
 use std::marker;
 use std::path::Path;
+#[cfg(arroy_verif)]
+use std::sync::atomic::Ordering;
+#[cfg(not(arroy_verif))]
 use std::sync::atomic::{AtomicBool, AtomicU32, AtomicU64, Ordering};
 
 use heed::types::Bytes;
@@ -17,6 +20,8 @@ use crate::internals::{KeyCodec, Leaf, NodeCodec};
 use crate::key::{Key, Prefix, PrefixCodec};
 use crate::node::{Node, SplitPlaneNormal};
 use crate::node_id::NodeMode;
+#[cfg(arroy_verif)]
+use crate::verif_hooks::{AtomicBool, AtomicU32, AtomicU64};
 use crate::{Database, Distance, Error, ItemId, Result};
 
 /// A structure to store the tree nodes out of the heed database.
